@@ -1,41 +1,51 @@
 #!/usr/bin/env python3
 """False-alarm self-test: apply each behaviour-preserving patch to a scratch copy of /repo and require that NO check
-reports a new violation (known findings excepted). exit 0 iff all checks stay silent on all benign edits."""
+reports a new violation (known findings excepted). exit 0 iff all checks stay silent on all benign edits.  usage: run_benign.py [-j N] [name ...]"""
 import json, os, subprocess, sys, tempfile, shutil, re
+from concurrent.futures import ThreadPoolExecutor
 VERIF = os.path.dirname(os.path.dirname(os.path.abspath(__file__)))
 REPO = os.environ.get("BT_REPO", "/repo")
 PROPS = ["C%02d" % i for i in range(1, 21)]
+BDIR = os.path.join(VERIF, "selftest", "benign")
+META = json.load(open(os.path.join(BDIR, "meta.json")))
+
+
+def one(n):
+    d = tempfile.mkdtemp(prefix="btverif-ben-")
+    out = tempfile.mkdtemp(prefix="btverif-out-")
+    try:
+        subprocess.run(["rsync", "-a", "--exclude", "target", "--exclude", ".git", REPO + "/", d + "/"], check=True)
+        r = subprocess.run(["git", "apply", "--whitespace=nowarn", os.path.join(BDIR, n + ".patch")], cwd=d, capture_output=True, text=True)
+        if r.returncode != 0:
+            return "SKIPPED %-32s patch does not apply: %s" % (n, r.stderr.strip()[:120])
+        alarms, und = [], 0
+        for p in PROPS:
+            c = subprocess.run([os.path.join(VERIF, "check"), p, "--repo", d, "--outroot", out], capture_output=True, text=True)
+            und += c.stdout.count("?? undecided here")
+            if c.returncode != 0:
+                fired = re.findall(r"^\s+\[FAIL\]\s+(\S+)", c.stdout, re.M)
+                first = re.findall(r"^\s+-> (.*)$", c.stdout, re.M)
+                alarms.append("%s:%s (%s)" % (p, ",".join(fired), first[0][:140] if first else "rc=%d" % c.returncode))
+        if alarms:
+            return "ALARM   %-32s %s" % (n, "; ".join(alarms))
+        m = META[n]
+        return "SILENT  %-32s %s%s" % (n, m if isinstance(m, str) else m.get("what", ""), "  (%d undecided clause reports)" % und if und else "")
+    finally:
+        shutil.rmtree(d, ignore_errors=True)
+        shutil.rmtree(out, ignore_errors=True)
 
 
 def main():
-    bdir = os.path.join(VERIF, "selftest", "benign")
-    meta = json.load(open(os.path.join(bdir, "meta.json")))
-    names = sys.argv[1:] or sorted(meta)
+    args = sys.argv[1:]
+    j = 6
+    if args and args[0] == "-j":
+        j = int(args[1]); args = args[2:]
+    names = args or sorted(META)
     bad = 0
-    for n in names:
-        d = tempfile.mkdtemp(prefix="btverif-ben-")
-        out = tempfile.mkdtemp(prefix="btverif-out-")
-        try:
-            subprocess.run(["rsync", "-a", "--exclude", "target", "--exclude", ".git", REPO + "/", d + "/"], check=True)
-            r = subprocess.run(["git", "apply", "--whitespace=nowarn", os.path.join(bdir, n + ".patch")], cwd=d, capture_output=True, text=True)
-            if r.returncode != 0:
-                print("SKIPPED %-32s patch does not apply: %s" % (n, r.stderr.strip()[:120]))
-                continue
-            alarms = []
-            for p in PROPS:
-                c = subprocess.run([os.path.join(VERIF, "check"), p, "--repo", d, "--outroot", out], capture_output=True, text=True)
-                if c.returncode != 0:
-                    fired = re.findall(r"^\s+\[FAIL\]\s+(\S+)", c.stdout, re.M)
-                    first = re.findall(r"^\s+-> (.*)$", c.stdout, re.M)
-                    alarms.append("%s:%s (%s)" % (p, ",".join(fired), first[0][:140] if first else "rc=%d" % c.returncode))
-            if alarms:
-                bad += 1
-                print("ALARM   %-32s %s" % (n, "; ".join(alarms)))
-            else:
-                print("SILENT  %-32s %s" % (n, meta[n]))
-        finally:
-            shutil.rmtree(d, ignore_errors=True)
-            shutil.rmtree(out, ignore_errors=True)
+    with ThreadPoolExecutor(j) as ex:
+        for line in ex.map(one, names):
+            print(line, flush=True)
+            bad += line.startswith("ALARM")
     return 1 if bad else 0
 
 
